@@ -253,11 +253,35 @@ class Unique(Family):
         return len(case) >= 2
 
 
+class CatNd(Unique):
+    """categorical_ndarray over single-letter strings (sent as code points), 1-d and 2-d."""
+    name = "catnd"
+
+    def cases(self, tier, rng):
+        L = 4 if tier == "quick" else 6
+        for n in range(1, L + 1):
+            for xs in itertools.product((97, 98, 100), repeat=n):
+                yield list(xs)
+        for _ in range(300 if tier == "quick" else 5000):
+            yield [rng.choice([65, 66, 90, 97, 98, 122]) for _ in range(rng.randint(1, 12))]
+
+    def line(self, case, pyout):
+        from harness.core import sx
+        return sx(["uniq", case, pyout])
+
+    def run_impl(self, case):
+        vals = np.array([chr(x) for x in case])
+        if len(case) % 2 == 0 and len(case) >= 4:
+            vals = vals.reshape((2, -1))
+        c = A.categorical_ndarray(vals)
+        return [[ord(x) for x in c.categories], [int(i) for i in np.asarray(c.codes).ravel()]]
+
+
 PROP = Property(
     id="C20",
     title="Chunk, slice and broadcast helpers are exact",
     theorems=["C20.findChunkShape_spec", "C20.iterateChunks_partition", "C20.iterateChunks_nmax", "C20.unbroadcast_roundtrip", "C20.unique_spec", "C20.viewShape_slice_length"],
-    families=[SliceIndices(), Fcs(), Iter(), Comb(), Unbroadcast(), ViewShape(), Unique()],
+    families=[SliceIndices(), Fcs(), Iter(), Comb(), Unbroadcast(), ViewShape(), Unique(), CatNd()],
     trusted_base=["numpy striding / as_strided, pandas.factorize(sort=True), CPython slice.indices (the latter validated by the slidx L0 family)"],
     assumptions=["numpy and pandas behave as their L0 models on the explored scope"],
     rule="exhaustive small scopes per family (shapes, chunk shapes/limits, normalised slice triples, stride patterns, arrays over a 3-letter alphabet) plus seeded random beyond; non-trivial = more than one chunk / non-empty combined slice / a removed broadcast axis / >=2 values",
